@@ -1,6 +1,9 @@
 package main
 
 import (
+	"strings"
+	"github.com/restic/restic/internal/verif/model"
+	"sort"
 	"github.com/restic/restic/internal/backend"
 	"fmt"
 	"testing"
@@ -24,6 +27,7 @@ func TestVerifC09(t *testing.T) {
 		w := newWorld(r, cfg)
 		nBackups := tp.Range(2, 4)
 		sweep := tp.Choose(5) == 4
+		dupMode := tp.Choose(3) == 0 // duplicates in the index (crashed backup, same data again, repair index) and a redundant pack that goes missing
 		if sweep && hx.Tier() == "quick" && tp.Choose(3) != 0 {
 			sweep = false
 		}
@@ -39,11 +43,15 @@ func TestVerifC09(t *testing.T) {
 			tree := w.genTree(12)
 			var hist []string
 			for i := 0; i < nBackups; i++ {
-				if tp.Choose(4) == 0 {
+				if tp.Choose(4) == 0 || dupMode && i == 0 {
 					f := fault{Kind: "crash", At: 1 + tp.Choose(12)}
 					w.backupFaulty(tree, f)
 					w.recoverLocks("after crashed backup")
 					hist = append(hist, "backup("+f.String()+")")
+					if dupMode {
+						// the same data again: what the crashed run uploaded becomes duplicate once it is indexed
+						continue
+					}
 				} else {
 					opts := BackupOptions{}
 					if tp.Choose(3) == 0 {
@@ -87,6 +95,69 @@ func TestVerifC09(t *testing.T) {
 					return
 				}
 				w.dropGone(forget, "forget", "forget")
+			}
+			// optionally: `repair index` (orphaned packs of crashed backups become indexed duplicates), then one
+			// pack file goes missing whose used blobs all have another indexed copy in another existing pack
+			// (or which holds no used blob at all): the repository is still logically complete
+			missingPack := ""
+			if dupMode {
+				var rerr error
+				w.free(func() { rerr = w.cmdRepairIndex(w.newProc("repair-index"), false) })
+				if rerr != nil {
+					r.Fail("history", "repair-index-failed", "repair index failed: %v", rerr)
+					return
+				}
+				hist = append(hist, "repair-index")
+				view := model.View(w.key, w.store.Clone(), true)
+				used := map[string]bool{}
+				for _, sn := range view.Snapshots {
+					// (also the snapshots to be forgotten: their removal may fail and then they must still restore)
+					need, _ := view.Reachable(sn.Tree)
+					for k := range need {
+						used[k] = true
+					}
+				}
+				cens := indexCensus(view)
+				needed := map[string]bool{} // packs that hold the only existing copy of a used blob
+				indexed := map[string]bool{}
+				for k, es := range cens {
+					packs := map[string]bool{}
+					for _, e := range es {
+						indexed[e.Pack] = true
+						if view.Packs[e.Pack] != nil {
+							packs[e.Pack] = true
+						}
+					}
+					if used[k] && len(packs) == 1 {
+						for pk := range packs {
+							needed[pk] = true
+						}
+					}
+				}
+				var cands, dupCands []string
+				for pk := range indexed {
+					if !needed[pk] && view.Packs[pk] != nil {
+						cands = append(cands, pk)
+						for _, b := range view.Packs[pk].Blobs {
+							if used[b.Key()] {
+								dupCands = append(dupCands, pk) // holds a second copy of a used blob
+								break
+							}
+						}
+					}
+				}
+				sort.Strings(cands)
+				sort.Strings(dupCands)
+				if len(dupCands) > 0 && tp.Choose(3) != 0 {
+					cands = dupCands
+				}
+				if len(cands) > 0 && tp.Choose(4) != 0 {
+					missingPack = cands[tp.Choose(len(cands))]
+					w.store.Del(backend.Handle{Type: backend.PackFile, Name: missingPack})
+					hist = append(hist, "redundant-pack-"+missingPack[:8]+"-goes-missing")
+					w.s.Count("fault:redundant-pack-deleted")
+				}
+				r.Set("history", fmt.Sprint(hist))
 			}
 			s0 := w.store.Clone()
 			snaps0 := map[string]*snapModel{}
@@ -137,15 +208,27 @@ func TestVerifC09(t *testing.T) {
 				w.recoverLocks(where)
 				w.dropGone(forget, "remaining-snapshots", where)
 				w.verifyAll("remaining-snapshots", where)
-				w.checkClean("check", where)
+				if missingPack == "" || err == nil {
+					w.checkClean("check", where)
+				}
 				if r.Failed() {
 					break
+				}
+				if missingPack != "" && err != nil && w.faultsFired() <= 1 {
+					// prune may refuse to work on an index that references a missing pack
+					r.Count("prune_refused_missing_pack", 1)
 				}
 				// second prune on whatever state is left, to completion
 				var err2 error
 				w.free(func() {
 					err2 = w.cmdPrune(w.newProc("prune2"), PruneOptions{MaxUnused: "0"})
 				})
+				if err2 != nil && missingPack != "" && strings.Contains(err2.Error(), "missing") {
+					// restic picked the copy in the missing pack as the one to keep and refuses to prune: safe
+					r.Count("second_prune_refused_missing_pack", 1)
+					w.verifyAll("remaining-snapshots-2", where+", then a refused prune")
+					break
+				}
 				if err2 != nil {
 					r.Fail("liveness", "second-prune-failed", "%s: a second, fault-free prune failed: %v", where, err2)
 					break
